@@ -44,38 +44,48 @@ Proof.
     destruct (is_true xmn), (is_true xmx); cbn [andb]; rewrite ?Ha1, ?Hb1; reflexivity.
 Qed.
 
+Lemma strip_prefix_app p x : strip_prefix p (p ++ x) = x.
+Proof. induction p as [|c r IH]; cbn; [destruct x; reflexivity|]. rewrite N.eqb_refl. exact IH. Qed.
+
 (* enum: numbers back to the (short) names *)
 Lemma short_of_mapped env name z :
+  zero_std env = true ->
   map_value env name = Some z -> short_name env z = Some (short env name).
 Proof.
-  intro H. unfold map_value in H. apply lookup_from_some in H as [k [o [Hk [Hz Hp]]]].
-  unfold short_name, short.
-  assert (Hlen : (k < length (ee_options env))%nat) by (apply nth_error_Some; congruence).
-  destruct (Z.eqb_spec z 0); [lia|].
-  destruct (Z.leb_spec 1 z); [|lia].
-  destruct (Z.leb_spec z (Z.of_nat (length (ee_options env)))); [|lia].
-  cbn [andb]. replace (Z.to_nat (z - 1)) with k by lia. rewrite Hk. rewrite Hp. reflexivity.
+  intros Hstd H. apply map_value_name in H. unfold short.
+  apply option_name_spec in H as [[o [H1 [Hn Hp]]]|[H0 [zn [Hz Hp]]]].
+  - unfold short_name.
+    assert (Hlen : (Z.to_nat (z - 1) < length (ee_options env))%nat) by (apply nth_error_Some; congruence).
+    destruct (Z.eqb_spec z 0); [lia|].
+    destruct (Z.leb_spec 1 z); [|lia].
+    destruct (Z.leb_spec z (Z.of_nat (length (ee_options env)))); [|lia].
+    cbn [andb]. rewrite Hn, Hp. reflexivity.
+  - subst z. unfold short_name. cbn. rewrite Hp.
+    unfold zero_std in Hstd. rewrite Hz in Hstd. apply str_eqb_eq in Hstd. rewrite Hstd.
+    unfold trim_prefix. rewrite has_prefix_app, strip_prefix_app. reflexivity.
 Qed.
 
 Lemma names_in_mapped env names : forall zs,
+  zero_std env = true ->
   map_values env names = Ok zs -> names_in env zs = Ok (map (short env) names).
 Proof.
-  induction names as [|n r IH]; intros zs H; cbn in H.
+  induction names as [|n r IH]; intros zs Hstd H; cbn in H.
   - inversion H. reflexivity.
   - destruct (map_value env n) as [z|] eqn:E; [|discriminate].
     destruct (map_values env r) as [zr| | |] eqn:Er; cbn in H; try discriminate.
-    inversion H; subst. cbn [names_in map]. rewrite (short_of_mapped env n z E).
-    rewrite (IH zr eq_refl). reflexivity.
+    inversion H; subst. cbn [names_in map]. rewrite (short_of_mapped env n z Hstd E).
+    rewrite (IH zr Hstd eq_refl). reflexivity.
 Qed.
 Lemma names_notin_mapped env names : forall zs,
+  zero_std env = true ->
   map_values env names = Ok zs -> names_notin env zs = Ok (map (short env) names).
 Proof.
-  induction names as [|n r IH]; intros zs H; cbn in H.
+  induction names as [|n r IH]; intros zs Hstd H; cbn in H.
   - inversion H. reflexivity.
   - destruct (map_value env n) as [z|] eqn:E; [|discriminate].
     destruct (map_values env r) as [zr| | |] eqn:Er; cbn in H; try discriminate.
-    inversion H; subst. cbn [names_notin map]. rewrite (short_of_mapped env n z E).
-    rewrite (IH zr eq_refl). reflexivity.
+    inversion H; subst. cbn [names_notin map]. rewrite (short_of_mapped env n z Hstd E).
+    rewrite (IH zr Hstd eq_refl). reflexivity.
 Qed.
 
 Lemma id62_not_wellknown :
@@ -101,21 +111,22 @@ Lemma no_list_arm t env w :
   no_list t = true -> write_field env t = Ok w -> fw_list w = None.
 Proof.
   intros Hn Hw.
-  destruct t as [k r l0|sf r l0|r|r l0|r l0|f e l0|f64 l0|r l0|r l0|l0|od ts l0|fl|l0]; cbn [no_list] in Hn;
-    try (destruct l0; [discriminate|]); cbn [write_field] in Hw;
+  destruct t as [k r l0|sf r l0|r|r l0|r l0|f e l0|f64 fr l0|r l0|r l0|tr l0|od ts l0|fl orl|orr l0]; cbn [no_list] in Hn;
+    try (destruct l0; [discriminate|]); cbn [write_field] in Hw; try (destruct fr; [discriminate Hw|]);
     try (apply obind_ok in Hw as [x [Hx Hw]]); inversion Hw; subst w; cbn [fw_list with_arm]; try reflexivity.
   inversion Hx. reflexivity.
 Qed.
 
 Lemma field_rt env m t w :
+  zero_std env = true ->
   rt_fty m t = true -> write_field env t = Ok w ->
   read_field env (fw_kind w) (vt_seen m w) (list_seen m w) (j5_seen m w) (fw_key w) = Ok (norm_fty env t).
 Proof.
-  intros Hrt Hw. unfold rt_fty in Hrt. apply andb_true_iff in Hrt as [Hnl Hrt].
+  intros Hstd Hrt Hw. unfold rt_fty in Hrt. apply andb_true_iff in Hrt as [Hnl Hrt].
   assert (Hls : list_seen m w = fw_list w).
   { destruct m; try reflexivity. cbn [list_seen]. symmetry. eapply no_list_arm; eauto. }
   rewrite Hls. clear Hls Hnl. unfold vt_seen.
-  destruct t as [k r l|sf r l|r|r l|r l|f e l|f64 l|r l|r l|l|od ts l|fl|l]; cbn [write_field] in Hw.
+  destruct t as [k r l|sf r l|r|r l|r l|f e l|f64 fr l|r l|r l|tr l|od ts l|fl orl|orr l]; cbn [write_field] in Hw.
   - (* integer *)
     apply obind_ok in Hw as [vo [Hv Hw]]. inversion Hw; subst w; clear Hw.
     cbn [fw_kind fw_val fw_list fw_ext fw_key].
@@ -151,7 +162,7 @@ Proof.
     destruct r as [r|].
     + apply obind_ok in Hio as [zi [Hzi Hio]]. apply obind_ok in Hio as [zn [Hzn Hio]].
       inversion Hio; subst io. cbn [fst snd].
-      rewrite (names_in_mapped env _ _ Hzi), (names_notin_mapped env _ _ Hzn). reflexivity.
+      rewrite (names_in_mapped env _ _ Hstd Hzi), (names_notin_mapped env _ _ Hstd Hzn). reflexivity.
     + inversion Hio; subst io. reflexivity.
   - (* key *)
     apply obind_ok in Hw as [lst [Hl Hw]]. inversion Hw; subst w; clear Hw.
@@ -180,6 +191,7 @@ Proof.
       destruct l as [p0|]; [destruct m; discriminate|]. inversion Hl; subst lst. unfold read_string. cbn.
       destruct e as [[[[[|]|pp ee]|] tn]|]; destruct m; try discriminate; reflexivity.
   - (* float *)
+    destruct fr; [discriminate|].
     inversion Hw; subst w; clear Hw. cbn [fw_kind fw_list].
     destruct f64; cbn [read_field norm_fty]; rewrite get_list_with_arm; reflexivity.
   - (* date *)
@@ -188,18 +200,19 @@ Proof.
   - (* decimal *)
     inversion Hw; subst w; clear Hw. cbn [fw_kind fw_list fw_ext read_field norm_fty].
     rewrite get_list_with_arm. destruct m, r; try discriminate; reflexivity.
-  - (* timestamp *)
+  - (* timestamp: rules without bounds (the writer emits an empty TimestampRules) *)
     inversion Hw; subst w; clear Hw. cbn [fw_kind fw_list fw_val read_field norm_fty vt_of].
-    rewrite get_list_with_arm. reflexivity.
+    rewrite get_list_with_arm.
+    destruct tr as [[[mn|] [mx|] xmn xmx]|]; destruct m; try discriminate; reflexivity.
   - (* any *)
     inversion Hw; subst w; clear Hw. cbn [fw_kind fw_list fw_ext read_field norm_fty].
     rewrite get_list_with_arm.
     destruct m; cbn [j5_seen fw_ext]; try reflexivity;
       apply andb_true_iff in Hrt as [H1 H2]; destruct od; try discriminate;
       destruct ts; try discriminate; reflexivity.
-  - (* object *)
+  - (* object: rules without content *)
     inversion Hw; subst w; clear Hw. cbn [fw_kind fw_ext read_field norm_fty].
-    destruct m, fl; try discriminate; reflexivity.
+    destruct orl as [[[mn|] [mx|]]|]; destruct m, fl; try discriminate; reflexivity.
   - (* oneof *)
     inversion Hw; subst w; clear Hw. cbn [fw_kind fw_list read_field norm_fty].
     rewrite get_list_with_arm. reflexivity.
@@ -211,13 +224,13 @@ Qed.
    proved, it is exactly the set of declarations that read back as declared. *)
 Definition list_of (t : fty) : option lpay :=
   match t with
-  | TInt _ _ l | TStr _ _ l | TBool _ l | TEnum _ l | TKey _ _ l | TFloat _ l | TDate _ l
-  | TDecimal _ l | TTimestamp l | TAny _ _ l | TOneof l => l
-  | TBytes _ | TObject _ => None
+  | TInt _ _ l | TStr _ _ l | TBool _ l | TEnum _ l | TKey _ _ l | TFloat _ _ l | TDate _ l
+  | TDecimal _ l | TTimestamp _ l | TAny _ _ l | TOneof _ l => l
+  | TBytes _ | TObject _ _ => None
   end.
 
 Lemma norm_fty_list env t : list_of (norm_fty env t) = list_of t.
-Proof. destruct t; reflexivity. Qed.
+Proof. destruct t as [| | | | | | | | | | |fl [[[mn|] [mx|]]|]|]; reflexivity. Qed.
 
 Ltac break_in H :=
   repeat (cbn [obind] in H;
@@ -241,7 +254,6 @@ Proof.
     try (eapply read_string_list_none; eassumption).
   - apply obind_ok in H as [r [_ H]]. inversion H. reflexivity.
   - break_in H; inversion H; reflexivity.
-  - break_in H; inversion H; reflexivity.
 Qed.
 
 Lemma pat_plain_false p :
@@ -261,7 +273,7 @@ Proof.
     destruct m; try discriminate. cbn [list_seen]. intro H.
     apply read_field_list_none in H. rewrite norm_fty_list in H.
     destruct t; cbn [no_list list_of] in *; try discriminate; destruct l; discriminate.
-  - destruct t as [k r l|sf r l|r|r l|r l|f e l|f64 l|r l|r l|l|od ts l|fl|l];
+  - destruct t as [k r l|sf r l|r|r l|r l|f e l|f64 fr l|r l|r l|tr l|od ts l|fl orl|orr l];
       try (destruct m; discriminate).
     + (* string *)
       inversion Hw; subst w; clear Hw. cbn [fw_kind read_field norm_fty].
@@ -313,19 +325,25 @@ Proof.
     + (* decimal *)
       inversion Hw; subst w; clear Hw. destruct m, r; try discriminate;
         cbn [fw_kind read_field norm_fty j5_seen]; discriminate.
+    + (* timestamp: bounds are not written *)
+      inversion Hw; subst w; clear Hw.
+      destruct tr as [[[mn|] [mx|] xmn xmx]|]; destruct m; try discriminate;
+        unfold vt_seen; cbn [fw_kind fw_val read_field norm_fty vt_of only_ty c_ty];
+        intro H; inversion H.
     + (* any *)
       inversion Hw; subst w; clear Hw. destruct m; try discriminate;
         cbn [fw_kind read_field norm_fty j5_seen]; intro H; inversion H; subst; discriminate.
-    + (* object *)
-      inversion Hw; subst w; clear Hw. destruct m, fl; try discriminate;
-        cbn [fw_kind read_field norm_fty j5_seen]; discriminate.
+    + (* object: property counts are not written; flatten not inside arrays / maps *)
+      inversion Hw; subst w; clear Hw.
+      destruct orl as [[[mn|] [mx|]]|]; destruct m, fl; try discriminate;
+        cbn [fw_kind read_field norm_fty j5_seen fw_ext]; intro H; inversion H.
 Qed.
 
 (* ---------------------------------------------------------------- one property *)
 Lemma kind_not_map env t w : write_field env t = Ok w -> forall v, fw_kind w <> KdMapEntry v.
 Proof.
   intros Hw v.
-  destruct t as [k r l|sf r l|r|r l|r l|f e l|f64 l|r l|r l|l|od ts l|fl|l]; cbn [write_field] in Hw;
+  destruct t as [k r l|sf r l|r|r l|r l|f e l|f64 fr l|r l|r l|tr l|od ts l|fl orl|orr l]; cbn [write_field] in Hw; try (destruct fr; [discriminate Hw|]);
     try (apply obind_ok in Hw as [x [Hx Hw]]); inversion Hw; subst w; cbn [fw_kind];
     try discriminate.
   - destruct k; discriminate.
@@ -337,7 +355,7 @@ Lemma write_field_primary_ty env t w :
   match fw_key w with Some k => kx_primary k | None => false end = is_primary_ty t.
 Proof.
   intro Hw.
-  destruct t as [k r l|sf r l|r|r l|r l|f e l|f64 l|r l|r l|l|od ts l|fl|l]; cbn [write_field] in Hw;
+  destruct t as [k r l|sf r l|r|r l|r l|f e l|f64 fr l|r l|r l|tr l|od ts l|fl orl|orr l]; cbn [write_field] in Hw; try (destruct fr; [discriminate Hw|]);
     try (apply obind_ok in Hw as [x [Hx Hw]]);
     inversion Hw; subst w; cbn [fw_key is_primary_ty]; try reflexivity.
   destruct e as [[ty tn]|]; [|reflexivity]. cbn. destruct ty as [[[|]|]|]; reflexivity.
@@ -366,7 +384,7 @@ Lemma write_field_constrained env t w :
   write_field env t = Ok w -> is_some (fw_val w) = items_constrained t.
 Proof.
   intro Hw.
-  destruct t as [k r l|sf r l|r|r l|r l|f e l|f64 l|r l|r l|l|od ts l|fl|l]; cbn [write_field] in Hw;
+  destruct t as [k r l|sf r l|r|r l|r l|f e l|f64 fr l|r l|r l|tr l|od ts l|fl orl|orr l]; cbn [write_field] in Hw; try (destruct fr; [discriminate Hw|]);
     try (apply obind_ok in Hw as [x [Hx Hw]]);
     inversion Hw; subst w; cbn [fw_val items_constrained]; try reflexivity.
   - destruct r as [r|].
@@ -376,6 +394,40 @@ Proof.
   - destruct r; reflexivity.
   - destruct r; reflexivity.
   - destruct f as [[| | |]|]; reflexivity.
+  - destruct tr; reflexivity.
+  - destruct orl; reflexivity.
+  - destruct orr; reflexivity.
+Qed.
+
+(* the writer never emits the typeless marker as a type; what the reader sees of an item constraint *)
+Lemma write_field_not_empty env t w c :
+  write_field env t = Ok w -> fw_val w = Some c -> c_ty c <> Some CEmpty.
+Proof.
+  intros Hw Hc.
+  destruct t as [k r l|sf r l|r|r l|r l|f e l|f64 fr l|r l|r l|tr l|od ts l|fl orl|orr l]; cbn [write_field] in Hw; try (destruct fr; [discriminate Hw|]);
+    try (apply obind_ok in Hw as [x [Hx Hw]]);
+    inversion Hw as [Hweq]; rewrite <- Hweq in Hc; cbn [fw_val] in Hc; try discriminate.
+  - destruct r as [r|].
+    + apply obind_ok in Hx as [c0 [Hc0 Hx]]. inversion Hx as [Hxeq]. rewrite <- Hxeq in Hc.
+      inversion Hc as [Hceq]. cbn.
+      apply write_int_ok in Hc0 as [_ Hc0]. rewrite Hc0. discriminate.
+    + inversion Hx as [Hxeq]. rewrite <- Hxeq in Hc. discriminate.
+  - destruct r; inversion Hc; subst; discriminate.
+  - destruct r; inversion Hc; subst; discriminate.
+  - destruct r; inversion Hc; subst; discriminate.
+  - inversion Hc; subst; discriminate.
+  - destruct f as [[| | |]|]; inversion Hc; subst; discriminate.
+  - destruct tr; inversion Hc; subst; discriminate.
+  - destruct orl; inversion Hc; subst; discriminate.
+  - destruct orr; inversion Hc; subst; discriminate.
+Qed.
+
+Lemma strip_item env t w :
+  write_field env t = Ok w -> strip_empty (item_tyc (fw_val w)) = vt_of (fw_val w).
+Proof.
+  intro Hw. destruct (fw_val w) as [c|] eqn:E; [|reflexivity]. cbn [item_tyc vt_of].
+  pose proof (write_field_not_empty env t w c Hw E) as Hn.
+  destruct (c_ty c) as [tc|]; [|reflexivity]. destruct tc; try reflexivity. congruence.
 Qed.
 
 (* the description: written as declared, read through commentDescription *)
@@ -397,10 +449,11 @@ Proof.
 Qed.
 
 Theorem c04_prop env idx d o :
+  zero_std env = true ->
   rt_ok d = true -> write_prop env idx d = Ok o ->
   read_prop env o = Ok (norm_prop env idx d).
 Proof.
-  intros Hrt Hw.
+  intros Hstd Hrt Hw.
   destruct d as [name req opt ty desc]. unfold rt_ok in Hrt. cbn [p_ty p_opt p_desc] in Hrt.
   apply andb_true_iff in Hrt as [Hdesc Hrt]. apply desc_plain_eq in Hdesc.
   unfold write_prop in Hw. cbn [p_name p_req p_opt p_ty p_desc] in Hw.
@@ -409,7 +462,7 @@ Proof.
   - (* singular *)
     pose proof (write_field_primary_ty env t w Hwf) as Hprim.
     assert (Hw' : (if opt && (req || is_primary_ty t) then Err "cannot be both required and optional"
-                   else Ok (FO name (idx + 1)%N (fw_kind w) false opt (opt || is_msg_kind (fw_kind w))
+                   else Ok (FO name (Strcase.to_snake name) (idx + 1)%N (fw_kind w) false opt (opt || is_msg_kind (fw_kind w))
                               (if req || is_primary_ty t then set_required (fw_val w) else fw_val w)
                               (fw_ext w) (fw_list w) (fw_key w) desc)) = Ok o).
     { rewrite <- Hprim. destruct (fw_key w); exact Hw. }
@@ -420,7 +473,7 @@ Proof.
     pose proof (kind_not_map env t w Hwf) as Hk.
     destruct (fw_kind w) eqn:Ek; try (exfalso; eapply Hk; reflexivity);
       rewrite <- Ek;
-      pose proof (field_rt env MSingle t w Hrt Hwf) as Hf;
+      pose proof (field_rt env MSingle t w Hstd Hrt Hwf) as Hf;
       unfold vt_seen in Hf; cbn [list_seen j5_seen] in Hf;
       replace (match (if required then set_required (fw_val w) else fw_val w) with
                | Some c => c_ty c | None => None end) with (vt_of (fw_val w))
@@ -435,7 +488,7 @@ Proof.
     apply obind_ok in Hwf as [wi [Hwt Hwa]]. inversion Hwa; subst w; clear Hwa.
     pose proof (write_field_primary_ty env t wi Hwt) as Hprim.
     cbn [wrap_array fw_key fw_kind fw_val fw_ext fw_list andb] in Hw.
-    assert (Hw' : Ok (FO name (idx + 1)%N (fw_kind wi) true false false
+    assert (Hw' : Ok (FO name (Strcase.to_snake name) (idx + 1)%N (fw_kind wi) true false false
                          (if req || is_primary_ty t then set_required (fw_val (wrap_array r sf wi)) else fw_val (wrap_array r sf wi))
                          (Some (XArray sf)) (fw_list wi) (fw_key wi) desc) = Ok o).
     { rewrite <- Hprim. destruct (fw_key wi); exact Hw. }
@@ -444,15 +497,16 @@ Proof.
     unfold read_prop.
     cbn [fo_kind fo_rep fo_val fo_list fo_ext fo_key fo_json fo_number fo_desc fo_opt].
     pose proof (kind_not_map env t wi Hwt) as Hk.
-    pose proof (field_rt env MArray t wi Hrt Hwt) as Hf.
+    pose proof (field_rt env MArray t wi Hstd Hrt Hwt) as Hf.
     unfold vt_seen in Hf; cbn [list_seen j5_seen] in Hf.
     destruct (fw_kind wi) eqn:Ek; try (exfalso; eapply Hk; reflexivity);
       lazy iota beta;
       unfold norm_prop; cbn [p_name p_req p_opt p_ty p_desc]; fold required;
       rewrite <- (write_field_constrained env t wi Hwt);
+      pose proof (strip_item env t wi Hwt) as Hsi;
       destruct required; destruct r as [[mn mx uq]|]; destruct (fw_val wi) as [c|] eqn:Ev;
       cbn [set_required is_some orb only_ty c_ty c_req ar_min ar_max ar_uniq vt_of] in *;
-      rewrite Hf, Hdesc; reflexivity.
+      try (rewrite Ev in Hsi); cbn [vt_of] in Hsi; rewrite ?Hsi; cbn [strip_empty item_tyc]; rewrite Hf, Hdesc; reflexivity.
   - (* map *)
     apply andb_true_iff in Hrt as [Hrt Hopt]. apply negb_true_iff in Hopt. subst opt.
     apply obind_ok in Hwf as [wi [Hwt Hwa]]. inversion Hwa; subst w; clear Hwa.
@@ -460,13 +514,14 @@ Proof.
     rewrite orb_false_r in Hw. inversion Hw; subst o; clear Hw.
     unfold read_prop.
     cbn [fo_kind fo_rep fo_val fo_list fo_ext fo_key fo_json fo_number fo_desc fo_opt].
-    pose proof (field_rt env MMap t wi Hrt Hwt) as Hf.
+    pose proof (field_rt env MMap t wi Hstd Hrt Hwt) as Hf.
     unfold vt_seen in Hf; cbn [list_seen j5_seen] in Hf.
     unfold norm_prop. cbn [p_name p_req p_opt p_ty p_desc]. rewrite orb_false_r.
     rewrite <- (write_field_constrained env t wi Hwt).
+    pose proof (strip_item env t wi Hwt) as Hsi.
     destruct req; destruct r as [[mn mx]|]; destruct (fw_val wi) as [c|] eqn:Ev;
       cbn [set_required is_some orb only_ty c_ty c_req mr_min mr_max vt_of] in *;
-      rewrite Hf, Hdesc; reflexivity.
+      try (rewrite Ev in Hsi); cbn [vt_of] in Hsi; rewrite ?Hsi; cbn [strip_empty item_tyc]; rewrite Hf, Hdesc; reflexivity.
 Qed.
 
 
@@ -488,7 +543,7 @@ Proof.
   - (* singular *)
     pose proof (write_field_primary_ty env t w Hwf) as Hprim.
     assert (Hw' : (if opt && (req || is_primary_ty t) then Err "cannot be both required and optional"
-                   else Ok (FO name (idx + 1)%N (fw_kind w) false opt (opt || is_msg_kind (fw_kind w))
+                   else Ok (FO name (Strcase.to_snake name) (idx + 1)%N (fw_kind w) false opt (opt || is_msg_kind (fw_kind w))
                               (if req || is_primary_ty t then set_required (fw_val w) else fw_val w)
                               (fw_ext w) (fw_list w) (fw_key w) desc)) = Ok o).
     { rewrite <- Hprim. destruct (fw_key w); exact Hw. }
@@ -511,7 +566,7 @@ Proof.
     pose proof (write_field_primary_ty env t wi Hwt) as Hprim.
     cbn [wrap_array fw_key fw_kind fw_val fw_ext fw_list] in Hw.
     assert (Hw' : (if opt && (req || is_primary_ty t) then Err "cannot be both required and optional"
-                   else Ok (FO name (idx + 1)%N (fw_kind wi) true false false
+                   else Ok (FO name (Strcase.to_snake name) (idx + 1)%N (fw_kind wi) true false false
                          (if req || is_primary_ty t then set_required (fw_val (wrap_array r sf wi)) else fw_val (wrap_array r sf wi))
                          (Some (XArray sf)) (fw_list wi) (fw_key wi) desc)) = Ok o).
     { rewrite <- Hprim. destruct (fw_key wi); exact Hw. }
@@ -526,8 +581,10 @@ Proof.
       destruct (fw_kind wi) eqn:Ek; try (exfalso; eapply Hk; reflexivity);
         lazy iota beta;
         unfold norm_prop; cbn [p_name p_req p_opt p_ty p_desc];
+        pose proof (strip_item env t wi Hwt) as Hsi;
         destruct required; destruct r as [[mn mx uq]|]; destruct (fw_val wi) as [c|] eqn:Ev;
         cbn [wrap_array fw_val set_required is_some orb only_ty c_ty c_req ar_min ar_max ar_uniq vt_of] in *;
+        try (rewrite Ev in Hsi); cbn [vt_of] in Hsi; rewrite ?Hsi; cbn [strip_empty item_tyc];
         match goal with
         | |- obind ?rf _ <> _ => destruct rf as [t'| | |]; cbn [obind]; intro H; try discriminate;
                                  apply Hc; inversion H; reflexivity
@@ -553,8 +610,10 @@ Proof.
     + pose proof (field_rt_conv env MMap t wi Hrt Hwt) as Hc.
       unfold vt_seen in Hc; cbn [list_seen j5_seen] in Hc.
       unfold norm_prop; cbn [p_name p_req p_opt p_ty p_desc].
+      pose proof (strip_item env t wi Hwt) as Hsi.
       destruct req; destruct r as [[mn mx]|]; destruct (fw_val wi) as [c|] eqn:Ev;
         cbn [set_required is_some orb only_ty c_ty c_req mr_min mr_max vt_of] in *;
+        try (rewrite Ev in Hsi); cbn [vt_of] in Hsi; rewrite ?Hsi; cbn [strip_empty item_tyc];
         match goal with
         | |- obind ?rf _ <> _ => destruct rf as [t'| | |]; cbn [obind]; intro H; try discriminate;
                                  apply Hc; inversion H; reflexivity
@@ -571,12 +630,13 @@ Qed.
 
 (* a property reads back as declared exactly when it lies in the fragment *)
 Theorem c04_prop_exact env idx d o :
+  zero_std env = true ->
   write_prop env idx d = Ok o ->
   (read_prop env o = Ok (norm_prop env idx d) <-> rt_ok d = true).
 Proof.
-  intro Hw. split.
+  intros Hstd Hw. split.
   - intro H. destruct (rt_ok d) eqn:E; [reflexivity|]. exfalso. exact (c04_prop_conv env idx d o E Hw H).
-  - intro H. exact (c04_prop env idx d o H Hw).
+  - intro H. exact (c04_prop env idx d o Hstd H Hw).
 Qed.
 
 (* ---------------------------------------------------------------- objects *)
@@ -588,28 +648,31 @@ Fixpoint norm_props_from (env : enum_env) (idx : N) (ds : list prop) : list rpro
 Definition norm_object (env : enum_env) (ds : list prop) : list rprop := norm_props_from env 0%N ds.
 
 Lemma c04_props_from env ds : forall idx os,
+  zero_std env = true ->
   forallb rt_ok ds = true -> write_props_from env idx ds = Ok os ->
   read_object env os = Ok (norm_props_from env idx ds).
 Proof.
-  induction ds as [|d r IH]; intros idx os Hrt Hw; cbn in Hw.
+  induction ds as [|d r IH]; intros idx os Hstd Hrt Hw; cbn in Hw.
   - inversion Hw. reflexivity.
   - cbn [forallb] in Hrt. apply andb_true_iff in Hrt as [Hd Hr].
     apply obind_ok in Hw as [o [Ho Hw]]. apply obind_ok in Hw as [os' [Hos Hw]].
     inversion Hw; subst os. cbn [read_object norm_props_from].
-    rewrite (c04_prop env idx d o Hd Ho). cbn [obind].
-    rewrite (IH (idx + 1)%N os' Hr Hos). reflexivity.
+    rewrite (c04_prop env idx d o Hstd Hd Ho). cbn [obind].
+    rewrite (IH (idx + 1)%N os' Hstd Hr Hos). reflexivity.
 Qed.
 
 Theorem c04_object env ds os :
+  zero_std env = true ->
   forallb rt_ok ds = true -> write_object env ds = Ok os ->
   read_object env os = Ok (norm_object env ds).
 Proof. apply c04_props_from. Qed.
 
 Lemma c04_props_from_exact env ds : forall idx os,
+  zero_std env = true ->
   write_props_from env idx ds = Ok os ->
   (read_object env os = Ok (norm_props_from env idx ds) <-> forallb rt_ok ds = true).
 Proof.
-  induction ds as [|d r IH]; intros idx os Hw; cbn in Hw.
+  induction ds as [|d r IH]; intros idx os Hstd Hw; cbn in Hw.
   - inversion Hw. split; reflexivity.
   - apply obind_ok in Hw as [o [Ho Hw]]. apply obind_ok in Hw as [os' [Hos Hw]].
     inversion Hw; subst os. cbn [read_object norm_props_from forallb].
@@ -618,38 +681,102 @@ Proof.
       destruct (read_object env os') as [ps| | |] eqn:Eps; cbn [obind] in H; try discriminate.
       inversion H; subst.
       apply andb_true_iff. split.
-      * apply (c04_prop_exact env idx d o Ho). exact Ep.
-      * apply (IH (idx + 1)%N os' Hos). exact Eps.
+      * apply (c04_prop_exact env idx d o Hstd Ho). exact Ep.
+      * apply (IH (idx + 1)%N os' Hstd Hos). exact Eps.
     + intro H. apply andb_true_iff in H as [Hd Hr].
-      rewrite (c04_prop env idx d o Hd Ho). cbn [obind].
-      rewrite (proj2 (IH (idx + 1)%N os' Hos) Hr). reflexivity.
+      rewrite (c04_prop env idx d o Hstd Hd Ho). cbn [obind].
+      rewrite (proj2 (IH (idx + 1)%N os' Hstd Hos) Hr). reflexivity.
 Qed.
 
 (* an object reads back as declared exactly when all its properties lie in the fragment *)
 Theorem c04_object_exact env ds os :
+  zero_std env = true ->
   write_object env ds = Ok os ->
   (read_object env os = Ok (norm_object env ds) <-> forallb rt_ok ds = true).
 Proof. apply c04_props_from_exact. Qed.
 
-(* the normal form keeps names, order and positions *)
-Lemma norm_object_names env ds :
-  map (fun r => p_name (rp_prop r)) (norm_object env ds) = map p_name ds.
+(* ---------------------------------------------------------------- root schemas *)
+(* the root schema a declaration denotes: kind, name and description as declared, the properties in normal form *)
+Definition norm_root (env : enum_env) (d : root_decl) : rroot :=
+  RR (rd_kind d) (rd_name d) (rd_desc d) (norm_object env (rd_props d)).
+
+Theorem c04_root env d o :
+  zero_std env = true -> rt_root d = true ->
+  write_root env d = Ok o -> read_root env o = Ok (norm_root env d).
 Proof.
-  unfold norm_object. generalize 0%N. induction ds as [|d r IH]; intro i; cbn; [reflexivity|].
-  rewrite IH. reflexivity.
+  intros Hstd Hrt Hw. unfold rt_root in Hrt. apply andb_true_iff in Hrt as [Hd Hps].
+  unfold write_root in Hw. apply obind_ok in Hw as [os [Hos Hw]]. inversion Hw; subst o; clear Hw.
+  unfold read_root. cbn [ro_msgopt ro_fields ro_name ro_comment].
+  rewrite (c04_object env (rd_props d) os Hstd Hps Hos). cbn [obind].
+  rewrite (desc_plain_eq _ Hd). reflexivity.
 Qed.
 
-Lemma norm_object_paths env ds :
-  map rp_path (norm_object env ds) = map (fun i => [N.of_nat i]) (seq 1 (length ds)).
+Theorem c04_root_exact env d o :
+  zero_std env = true -> write_root env d = Ok o ->
+  (read_root env o = Ok (norm_root env d) <-> rt_root d = true).
 Proof.
-  unfold norm_object.
-  assert (H : forall i, map rp_path (norm_props_from env (N.of_nat i) ds)
-                        = map (fun i => [N.of_nat i]) (seq (S i) (length ds))).
-  { induction ds as [|d r IH]; intro i; cbn [norm_props_from map length seq]; [reflexivity|].
-    f_equal.
-    - unfold norm_prop. cbn. f_equal. lia.
-    - replace (N.of_nat i + 1)%N with (N.of_nat (S i)) by lia. apply IH. }
-  exact (H O).
+  intros Hstd Hw. split; [|intro H; exact (c04_root env d o Hstd H Hw)].
+  unfold write_root in Hw. apply obind_ok in Hw as [os [Hos Hw]]. inversion Hw; subst o; clear Hw.
+  unfold read_root, norm_root, rt_root. cbn [ro_msgopt ro_fields ro_name ro_comment].
+  destruct (read_object env os) as [ps| | |] eqn:Er; cbn [obind]; intro H; try discriminate.
+  injection H as Hdesc Hps. apply andb_true_iff. split.
+  - unfold desc_plain. apply str_eqb_eq. exact Hdesc.
+  - apply (c04_object_exact env (rd_props d) os Hstd Hos). rewrite Er, Hps. reflexivity.
+Qed.
+
+(* ---------------------------------------------------------------- names, order, paths: for EVERY compiled object *)
+(* whatever else is lost, a reflected object has the declared property names in
+   the declared order and the proto field paths [1], [2], ... — also outside the
+   fragment (no rt_ok hypothesis) *)
+Lemma read_prop_name_path env o r :
+  read_prop env o = Ok r -> p_name (rp_prop r) = fo_json o /\ rp_path r = [fo_number o].
+Proof.
+  unfold read_prop. intro H.
+  destruct (fo_kind o); try (destruct (fo_rep o));
+    repeat match type of H with
+           | (let '(_, _) := ?x in _) = _ => destruct x
+           end;
+    apply obind_ok in H as [t [_ H]]; inversion H; split; reflexivity.
+Qed.
+
+Lemma write_prop_name_number env idx d o :
+  write_prop env idx d = Ok o -> fo_json o = p_name d /\ fo_number o = (idx + 1)%N.
+Proof.
+  unfold write_prop. intro H. apply obind_ok in H as [w [_ H]].
+  match type of H with (if ?c then _ else _) = _ => destruct c; [discriminate|] end.
+  inversion H. split; reflexivity.
+Qed.
+
+Theorem read_names_paths env ds : forall idx os rs,
+  write_props_from env idx ds = Ok os -> read_object env os = Ok rs ->
+  map (fun r => p_name (rp_prop r)) rs = map p_name ds /\
+  map rp_path rs = map (fun i => [(idx + N.of_nat i)%N]) (seq 1 (length ds)).
+Proof.
+  induction ds as [|d r IH]; intros idx os rs Hw Hr; cbn in Hw.
+  - inversion Hw; subst. cbn in Hr. inversion Hr. split; reflexivity.
+  - apply obind_ok in Hw as [o [Ho Hw]]. apply obind_ok in Hw as [os' [Hos Hw]].
+    inversion Hw; subst os. cbn [read_object] in Hr.
+    apply obind_ok in Hr as [p [Hp Hr]]. apply obind_ok in Hr as [ps [Hps Hr]]. inversion Hr; subst rs.
+    destruct (read_prop_name_path env o p Hp) as [Hn Hpath].
+    destruct (write_prop_name_number env idx d o Ho) as [Hj Hnum].
+    destruct (IH (idx + 1)%N os' ps Hos Hps) as [IHn IHp].
+    cbn [map length seq]. split.
+    + rewrite Hn, Hj, IHn. reflexivity.
+    + rewrite Hpath, Hnum, IHp.
+      assert (Ht : map (fun i : nat => [(idx + 1 + N.of_nat i)%N]) (seq 1 (length r))
+                   = map (fun i : nat => [(idx + N.of_nat i)%N]) (seq 2 (length r))).
+      { rewrite <- (seq_shift (length r) 1), map_map. apply map_ext. intro i. f_equal.
+        rewrite Nat2N.inj_succ. lia. }
+      rewrite Ht. reflexivity.
+Qed.
+
+Theorem c04_names_order_paths env ds os rs :
+  write_object env ds = Ok os -> read_object env os = Ok rs ->
+  map (fun r => p_name (rp_prop r)) rs = map p_name ds /\
+  map rp_path rs = map (fun i => [N.of_nat i]) (seq 1 (length ds)).
+Proof.
+  intros Hw Hr. destruct (read_names_paths env ds 0%N os rs Hw Hr) as [H1 H2]. split; [exact H1|].
+  rewrite H2. apply map_ext. intro i. reflexivity.
 Qed.
 
 (* the normal form changes no meaning: the declared rules of the normal form
@@ -667,9 +794,6 @@ Proof. rewrite <- !int_rule_ok_spec, norm_int_ok. reflexivity. Qed.
 (* ---------------------------------------------------------------- enums as roots *)
 From J5V.model Require Import RulesEnum.
 
-Lemma strip_prefix_app p x : strip_prefix p (p ++ x) = x.
-Proof. induction p as [|c r IH]; cbn; [destruct x; reflexivity|]. rewrite N.eqb_refl. exact IH. Qed.
-
 Lemma has_suffix_app p suf : has_suffix suf (p ++ suf) = true.
 Proof. unfold has_suffix. rewrite rev_app_distr. apply has_prefix_app. Qed.
 
@@ -680,10 +804,10 @@ Qed.
 
 Lemma write_enum_first e :
   unspec_ok e = true ->
-  exists d rest, eo_values (write_enum e) = ((ed_prefix e ++ unspecified)%list, 0%Z, d) :: rest.
+  exists d inf rest, eo_values (write_enum e) = ((ed_prefix e ++ unspecified)%list, 0%Z, d, inf) :: rest.
 Proof.
   intro H. unfold write_enum, unspec_ok in *. cbn [eo_values].
-  destruct (ed_options e) as [|[n d] r]; [eauto|].
+  destruct (ed_options e) as [|[[n d] inf] r]; [eauto|].
   destruct (has_suffix unspecified n) eqn:Es; [|eauto].
   apply orb_true_iff in H as [H|H].
   - apply str_eqb_eq in H. subst n. unfold pfx. rewrite has_prefix_app. eauto.
@@ -698,12 +822,12 @@ Proof.
 Qed.
 
 Lemma read_numbered p os : forall i,
-  forallb (fun o => desc_plain (snd o)) os = true ->
-  map (fun v => match v with (n, k, d) => (trim_prefix p n, k, clean_desc d) end) (number_from p i os)
+  forallb (fun o => desc_plain (snd (fst o))) os = true ->
+  map (fun v => match v with (n, k, d, inf) => (trim_prefix p n, k, clean_desc d, inf) end) (number_from p i os)
   = number_options p i os.
 Proof.
-  induction os as [|[n d] r IH]; intros i H; [reflexivity|].
-  cbn [forallb snd] in H. apply andb_true_iff in H as [Hd Hr].
+  induction os as [|[[n d] inf] r IH]; intros i H; [reflexivity|].
+  cbn [forallb snd fst] in H. apply andb_true_iff in H as [Hd Hr].
   cbn [number_from number_options map]. rewrite trim_pfx, (desc_plain_eq d Hd), (IH (i + 1)%Z Hr). reflexivity.
 Qed.
 
@@ -713,14 +837,14 @@ Proof. unfold has_suffix. rewrite <- (app_nil_r (rev s)) at 2. apply has_prefix_
 Theorem c04_enum e : enum_rt e = true -> read_enum (write_enum e) = Ok (norm_enum e).
 Proof.
   intro H. unfold enum_rt in H. apply andb_true_iff in H as [H Hos]. apply andb_true_iff in H as [Hu Hd].
-  destruct (write_enum_first e Hu) as [d0 [rest Hv]].
+  destruct (write_enum_first e Hu) as [d0 [inf0 [rest Hv]]].
   unfold read_enum. rewrite Hv. rewrite has_suffix_app. cbn [negb]. rewrite trim_suffix_app.
-  rewrite <- Hv. clear Hv d0 rest.
-  unfold norm_enum, write_enum. cbn [eo_desc eo_values]. rewrite (desc_plain_eq _ Hd). f_equal. f_equal.
+  rewrite <- Hv. clear Hv d0 inf0 rest.
+  unfold norm_enum, write_enum. cbn [eo_desc eo_values eo_info]. rewrite (desc_plain_eq _ Hd). f_equal. f_equal.
   unfold unspec_ok in Hu.
-  destruct (ed_options e) as [|[n d] r] eqn:Eo.
+  destruct (ed_options e) as [|[[n d] inf] r] eqn:Eo.
   - cbn [map]. unfold trim_prefix. rewrite has_prefix_app, strip_prefix_app. reflexivity.
-  - cbn [forallb snd] in Hos. apply andb_true_iff in Hos as [Hd0 Hr].
+  - cbn [forallb snd fst] in Hos. apply andb_true_iff in Hos as [Hd0 Hr].
     destruct (has_suffix unspecified n) eqn:Es.
     + assert (Hn : names_unspecified (ed_prefix e) n = true /\ pfx (ed_prefix e) n = (ed_prefix e ++ unspecified)%list).
       { unfold names_unspecified. apply orb_true_iff in Hu as [Hu|Hu].
@@ -738,9 +862,9 @@ Proof.
         - destruct (str_eqb n (ed_prefix e ++ unspecified)) eqn:E; [|reflexivity]. apply str_eqb_eq in E. subst n.
           rewrite has_suffix_app in Es. discriminate. }
       rewrite Hn. cbn [map]. unfold trim_prefix at 1. rewrite has_prefix_app, strip_prefix_app. cbn [clean_desc].
-      assert (Hall : forallb (fun o => desc_plain (snd o)) ((n, d) :: r) = true)
-        by (cbn [forallb snd]; rewrite Hd0, Hr; reflexivity).
-      rewrite (read_numbered (ed_prefix e) ((n, d) :: r) 1%Z Hall). reflexivity.
+      assert (Hall : forallb (fun o => desc_plain (snd (fst o))) ((n, d, inf) :: r) = true)
+        by (cbn [forallb snd fst]; rewrite Hd0, Hr; reflexivity).
+      rewrite (read_numbered (ed_prefix e) ((n, d, inf) :: r) 1%Z Hall). reflexivity.
 Qed.
 
 (* ---------------------------------------------------------------- the printed text *)
